@@ -288,6 +288,17 @@ def run(tier):
         progs.append(('random', tree, g))
     for k in range(60 if tier == 'quick' else 600):
         progs.append(('nested-fn', nested_fn_program(r, k), {'g1': r.choice(vals)}))
+    # loops whose condition VALUE (not a comparison) is re-tested: every value of the pool as the flag
+    for flag in vals:
+        for variant in range(3):
+            body = [['assign', 'n', 'n + 1'], ['expr', "systemLog('it ' + n)"]]
+            if variant == 1:
+                body.append(['if', [['n >= 2', [['assign', 'flag', 'null']]]], None])
+            elif variant == 2:
+                body.append(['if', [['n == 1', [['assign', 'flag', 'other']]], ['n >= 3', [['break']]]], None])
+            else:
+                body.append(['if', [['n >= 2', [['break']]]], None])
+            progs.append(('truthy-while', [['assign', 'n', '0'], ['while', 'flag', body], ['return', 'n']], {'flag': flag, 'other': r.choice(vals)}))
     # F7 probe family: continue inside while
     f7 = [
         [['assign', 'i', '0'], ['while', 'i < 3', [['assign', 'i', 'i + 1'], ['if', [['i == 3', [['continue']]]], None], ['expr', "systemLog('i=' + i)"]]],
